@@ -15,7 +15,11 @@ TRUSTED = ["numba compiles the kernels with the semantics of their Python source
            "finite-sum meta-lemma: a sum whose summand is linear in the current densities is linear in them"]
 ASSUMPTIONS = ["evaluation points are off the current sheet (r != 0) - precondition of the division",
                "NOT under contract (stated, not claimed): unit conversion in biot_savart_2d / convert_field (pint), Solution.field_at_position / "
-               "vector_potential_at_position assembly, current_loop_vector_potential vs quadrature (elliptic integrals, A3) - bounded native run only"]
+               "vector_potential_at_position assembly - bounded native run only",
+               "current_loop_vector_potential: sin/cos/arccos/arctan2/sqrt/ellipk/ellipe uninterpreted, generic evaluation point; proved: the result is the "
+               "documented closed form evaluated at the position relative to the loop centre in SI units, linear in the current (off axis / off wire), "
+               "unchanged when loop and points are translated together.  That the closed form equals the Biot-Savart line integral is analysis (A3): "
+               "bounded native quadrature (also the replay oracle; a counter-model over the uninterpreted functions is only a candidate until it replays)"]
 EXPLANATION = "Biot-Savart kernels equal the direct sums of the docstring formulas with prefactor mu0/4pi; scalar = z of vector; distance kernels"
 EM = "tdgl.em"
 DM = "tdgl.distance"
@@ -232,6 +236,182 @@ def run_field_at_position(mutate=None, prefixes=("C20.", "C08.")):
     return dict(obls=obls, paths=n, sources=[L.info()], consistent=True)
 
 
+# ---------------------------------------------------------------------------------------------------------------------------------
+# current_loop_vector_potential: the real function is executed at a generic evaluation point (generic-row reading of the (n, 3)
+# arrays).  sin, cos, arccos, arctan2, sqrt, ellipk, ellipe are UNINTERPRETED; the contract is the documented closed form
+#     A(p) = I * F(p - c; a) ,  F = -mu0 a /(pi m) ((m - 2) K(m) + 2 E(m)) / sqrt(D) * e_phi ,
+# every geometric quantity taken from the position RELATIVE to the loop centre, in SI units; plus linearity in the current and
+# translation covariance.  That the closed form equals the Biot-Savart line integral is analysis (A3): bounded native quadrature.
+DENOMS = []
+
+
+class Col:
+    """one real per row (generic row)"""
+    def __init__(self, v):
+        self.v = v if isinstance(v, SR) else SR(v)
+
+    def _c(self, o):
+        return o.v if isinstance(o, Col) else (o if isinstance(o, SR) else SR(o))
+
+    def __add__(self, o): return Col(self.v + self._c(o))
+    __radd__ = __add__
+    def __sub__(self, o): return Col(self.v - self._c(o))
+    def __rsub__(self, o): return Col(self._c(o) - self.v)
+
+    def __mul__(self, o):
+        if isinstance(o, (Rows, _U)):
+            return NotImplemented
+        return Col(self.v * self._c(o))
+    __rmul__ = __mul__
+    def __truediv__(self, o):
+        d = self._c(o).e
+        DENOMS.append(d)
+        return Col(SR(self.v.e / d))      # z3's total division: congruent, x/0 unspecified
+
+    def __rtruediv__(self, o):
+        DENOMS.append(self.v.e)
+        return Col(SR(self._c(o).e / self.v.e))
+    def __neg__(self): return Col(-self.v)
+
+    def __pow__(self, k):
+        assert k == 2
+        return Col(self.v * self.v)
+
+    def __getitem__(self, key):
+        if key == (slice(None), None):
+            return self
+        raise sym.Unsupported(f"Col[{key!r}]")
+
+
+class Rows:
+    """(n, k) array, generic row"""
+    def __init__(self, cols, unit=None):
+        self.cols, self.unit = list(cols), unit
+
+    def _z(self, o, f):
+        if isinstance(o, Rows):
+            if len(o.cols) != len(self.cols):
+                raise sym.Unsupported("broadcast of different widths")
+            return Rows([Col(f(a.v, b.v)) for a, b in zip(self.cols, o.cols)])
+        oc = o.v if isinstance(o, Col) else (o if isinstance(o, SR) else SR(o))
+        return Rows([Col(f(a.v, oc)) for a in self.cols])
+
+    def __sub__(self, o): return self._z(o, lambda a, b: a - b)
+    def __add__(self, o): return self._z(o, lambda a, b: a + b)
+
+    def __mul__(self, o):
+        if isinstance(o, _U):
+            return Rows(self.cols, unit=o.name)
+        return self._z(o, lambda a, b: a * b)
+    __rmul__ = __mul__
+
+    def __getitem__(self, key):
+        if isinstance(key, tuple) and key[0] == slice(None) and isinstance(key[1], int):
+            return self.cols[key[1]]
+        raise sym.Unsupported(f"Rows[{key!r}]")
+
+    @property
+    def T(self):
+        return self
+
+
+class _U:
+    def __init__(self, name):
+        self.name = name
+
+    def to(self, other):
+        fac = {("um", "m"): "to_meter", ("uA", "A"): "to_amp"}.get((self.name, other))
+        if fac is None:
+            raise sym.Unsupported(f"unit conversion {self.name} -> {other}")
+        v = SR(z3.Real(fac))
+        assume(v > 0)
+        return type("Q", (), {"magnitude": v})()
+
+
+def _uf(name, n=1):
+    f = z3.Function(name, *([z3.RealSort()] * (n + 1)))
+    return lambda *a: Col(SR(f(*[(x.v if isinstance(x, Col) else SR.lift(x)).e for x in a])))
+
+
+class _LoopNP:
+    pi = math.pi
+    newaxis = None
+    arccos, sin, cos, sqrt = _uf("arccos"), _uf("sin"), _uf("cos"), _uf("sqrt")
+    arctan2 = _uf("arctan2", 2)
+
+    class linalg:
+        @staticmethod
+        def norm(r, axis=None):
+            assert axis == 1 and len(r.cols) == 3
+            return _LoopNP.sqrt(r.cols[0] * r.cols[0] + r.cols[1] * r.cols[1] + r.cols[2] * r.cols[2])
+
+    @staticmethod
+    def atleast_2d(x):
+        if isinstance(x, Rows):
+            return x
+        return Rows([Col(v) for v in x])
+
+    @staticmethod
+    def zeros_like(c):
+        return Col(SR(0))
+
+    @staticmethod
+    def array(xs):
+        return Rows(list(xs))
+
+
+class _LoopSpecial:
+    ellipk, ellipe = _uf("ellipk"), _uf("ellipe")
+
+
+def run_loop_potential(mutate=None):
+    from scipy.constants import mu_0
+    from pyvc import instrument, vc as vcm
+    mut = [(o, n) for (m, o, n) in (mutate or []) if m == EM]
+    L = instrument.load(EM, rebind={"np": _LoopNP, "special": _LoopSpecial, "ureg": _U}, mutate=mut, vc=vcm.VC())
+    fn = L["current_loop_vector_potential"]
+    R = z3.Real
+
+    def spec(p, c, a, cur):
+        tm, ta = SR(R("to_meter")), SR(R("to_amp"))
+        N = _LoopNP
+        r = [Col(p[i] * tm - c[i] * tm) for i in range(3)]
+        a_, I_ = Col(a * tm), Col(cur * ta)
+        rs = N.sqrt(r[0] * r[0] + r[1] * r[1] + r[2] * r[2])
+        s = N.sin(N.arccos(r[2] / rs))
+        D = rs * rs + a_ * a_ + 2 * a_ * rs * s
+        m = 4 * a_ * rs * s / D
+        K, E = _LoopSpecial.ellipk(m), _LoopSpecial.ellipe(m)
+        mag = -mu_0 * I_ * a_ / (math.pi * m) * ((m - 2) * K + 2 * E) / N.sqrt(D)
+        phi = N.arctan2(r[1], r[0]) + math.pi / 2
+        return [mag * N.cos(phi), mag * N.sin(phi), Col(SR(0))]
+
+    def body():
+        sym.ctx().safety = False
+        p = [SR(R(f"p{i}")) for i in "xyz"]
+        c = [SR(R(f"c{i}")) for i in "xyz"]
+        d = [SR(R(f"d{i}")) for i in "xyz"]
+        a, cur, al = SR(R("loop_radius")), SR(R("current")), SR(R("alpha"))
+        assume(a > 0)
+        call = lambda p_, c_, I_: fn(Rows([Col(v) for v in p_]), loop_center=tuple(c_), loop_radius=a, current=I_, length_units="um", current_units="uA")
+        got = call(p, c, cur)
+        want = spec(p, c, a, cur)
+        check("C20.loop_potential.result_in_tesla_metre", z3.BoolVal(isinstance(got, Rows) and got.unit == "T * m" and len(got.cols) == 3))
+        for i, ax in enumerate("xyz"):
+            check(f"C20.loop_potential.closed_form_of_the_position_relative_to_the_loop_centre[A{ax}]", got.cols[i].v.e == want[i].v.e, weak=True)
+        del DENOMS[:]
+        got2 = call(p, c, al * cur)
+        # precondition of the linearity clause: the point is neither on the loop axis (m = 0) nor on the wire (D = 0): no division by zero
+        nz = [dd != 0 for dd in DENOMS]
+        for i, ax in enumerate("xyz"):
+            check(f"C20.loop_potential.linear_in_the_current[A{ax}]", got2.cols[i].v.e == (al * got.cols[i].v).e, weak=True, extra=nz)
+        got3 = call([p[i] + d[i] for i in range(3)], [c[i] + d[i] for i in range(3)], cur)
+        for i, ax in enumerate("xyz"):
+            check(f"C20.loop_potential.unchanged_when_loop_and_points_move_together[A{ax}]", got3.cols[i].v.e == got.cols[i].v.e, weak=True)
+    obls, n = sym.explore(body)
+    return dict(obls=obls, paths=n, sources=[L.info()], consistent=sym.consistent())
+
+
 KERNELS = [("sqeuclidean_distance_2d", 2, False), ("sqeuclidean_distance_3d", 3, False), ("euclidean_distance_2d", 2, True), ("euclidean_distance_3d", 3, True)]
 
 
@@ -242,6 +422,7 @@ def units():
         us.append(Unit(nm, DM + ":" + nm, run_dist(nm, dim, root), props=["C20", "C09"], timeout=300))
     us.append(Unit("cdist", DM + ":cdist", run_cdist, props=["C20"], timeout=300))
     us.append(Unit("Solution.field_at_position[call contract]", "tdgl.solution.solution:Solution.field_at_position", run_field_at_position, props=["C20", "C08"], timeout=300))
+    us.append(Unit("current_loop_vector_potential", EM + ":current_loop_vector_potential", run_loop_potential, props=["C20"], timeout=300))
     return us
 
 
@@ -315,6 +496,9 @@ def replay(unit, obl):
 
 
 MUTANTS = [
+    dict(name="loop azimuth from the absolute position", edits=[(EM, "    phis = np.arctan2(positions[:, 1], positions[:, 0]) + np.pi / 2", "    phis = np.arctan2(positions[:, 1] + loop_center[:, 1], positions[:, 0] + loop_center[:, 0]) + np.pi / 2")], units=["current_loop_vector_potential"]),
+    dict(name="loop radius not converted to metres", edits=[(EM, "    a = loop_radius * to_meter\n    current = current * to_amp\n    positions = positions - loop_center", "    a = loop_radius\n    current = current * to_amp\n    positions = positions - loop_center")], units=["current_loop_vector_potential"]),
+    dict(name="loop elliptic integrals swapped", edits=[(EM, "    K = special.ellipk(m)\n    E = special.ellipe(m)", "    K = special.ellipe(m)\n    E = special.ellipk(m)")], units=["current_loop_vector_potential"]),
     dict(name="Bz sign", edits=[(EM, "        Bz_out[i] = Jx_dy - Jy_dx", "        Bz_out[i] = Jy_dx - Jx_dy")]),
     dict(name="r^-2 instead of r^-3", edits=[(EM, "* (dx * dx + dy * dy + dz * dz) ** (-3 / 2)\n            )\n            Jx_dy += pref * Jx[k] * dy\n            Jy_dx += pref * Jy[k] * dx\n        Bz_out", "* (dx * dx + dy * dy + dz * dz) ** (-2 / 2)\n            )\n            Jx_dy += pref * Jx[k] * dy\n            Jy_dx += pref * Jy[k] * dx\n        Bz_out")]),
     dict(name="vector By sign", edits=[(EM, "B_out[i, 1] = -Jx_dz", "B_out[i, 1] = Jx_dz")]),
